@@ -94,6 +94,8 @@ def main():
             ctx.proof = {"ok": False, "obligations": 0, "discharged": 0, "axioms": {}, "theorems": [],
                          "problems": ["audit crashed: %r" % (e,)]}
         proof_broken = not ctx.proof["ok"]
+        if hasattr(mod, "FORCE_LEVEL"):
+            ctx.level = mod.FORCE_LEVEL      # theorems exist but do not carry the whole property (see the module)
     else:
         # no theorem file yet: the check is the executable model + spec oracle only; level is not "proof"
         ctx.proof = None
